@@ -369,6 +369,21 @@ def misc(rep, tier):
                     msg = "-O raw file unreadable: %r" % (exc,)
             if msg:
                 rep.violation("cli -O raw rec=%s input=%s" % (rec, kind), msg, {"kind": "climisc", "what": "-Oraw", "rec": rec, "input": kind})
+            # -O naming a format that needs an external encoder; where none can be run the program still prints every
+            # detection, keeps the stream as <name>.wav and exits with status 0
+            rep.add("evaluations")
+            res = run_cli(argv_from(opts) + ["-O", "<WD>out.ogg"], rec, kind, wd)
+            msg = check_run(res, rec, opts)
+            if not msg and not os.path.exists(os.path.join(wd, "out.ogg")):
+                try:
+                    with wave.open(os.path.join(wd, "out.ogg.wav"), "rb") as fp:
+                        got = fp.readframes(-1)
+                    if got != data:
+                        msg = "-O out.ogg: the fallback out.ogg.wav holds %d bytes, the input has %d" % (len(got), len(data))
+                except Exception as exc:
+                    msg = "-O out.ogg without a usable encoder: no readable out.ogg.wav either: %r" % (exc,)
+            if msg:
+                rep.violation("cli -O ogg rec=%s input=%s" % (rec, kind), msg, {"kind": "climisc", "what": "-Oogg", "rec": rec, "input": kind})
             # -O on a run without a single detection (threshold out of reach): the stream is saved all the same
             quiet = dict(opts, e=150)
             for name in ("out.wav", "out.raw"):
